@@ -369,7 +369,8 @@ def _alloc_stmt(P, tok):
             return None
         for n in _ast.walk(fi.node):
             if isinstance(n, _ast.stmt) and getattr(n, "lineno", None) == int(line) and not isinstance(n, (_ast.If, _ast.For, _ast.While, _ast.FunctionDef)):
-                return " ".join(_ast.unparse(n).split())[:120]
+                from .program import norm_stmt
+                return norm_stmt(n)[:120]       # names the inliner renamed apart are keyed by their source names
     except Exception:
         return None
     return None
